@@ -85,8 +85,25 @@ func zzRead(a *api.ApiContext, obj interface{}) error {
 	return nil
 }
 
-func zzWrite(a *api.ApiContext, obj interface{}) { zzWritten = append(zzWritten, obj) }
-func zzWriteErr(a *api.ApiContext, err error)    {}
+// the first thing written decides the status the client sees (see replica/rest harness)
+var (
+	zzFirst  string // "", "ok", "err", "status"
+	zzErrors []error
+)
+
+func zzWrite(a *api.ApiContext, obj interface{}) {
+	zzWritten = append(zzWritten, obj)
+	if zzFirst == "" {
+		zzFirst = "ok"
+	}
+}
+func zzWriteErr(a *api.ApiContext, err error) {
+	zzErrors = append(zzErrors, err)
+	if zzFirst == "" {
+		zzFirst = "err"
+	}
+}
+func zzNewSchema() *client.Schemas { return &client.Schemas{} }
 func zzVars(r *http.Request) map[string]string   { return map[string]string{"id": zzVarID} }
 
 type zzRW struct {
@@ -101,7 +118,12 @@ func (w *zzRW) Header() http.Header {
 	return w.hdr
 }
 func (w *zzRW) Write(b []byte) (int, error) { return len(b), nil }
-func (w *zzRW) WriteHeader(code int)        { w.status = code }
+func (w *zzRW) WriteHeader(code int) {
+	w.status = code
+	if zzFirst == "" {
+		zzFirst = "status"
+	}
+}
 
 func zzRequest() *http.Request {
 	return &http.Request{URL: &url.URL{}, RequestURI: "/v1/volumes/vol", Method: "POST"}
